@@ -49,6 +49,8 @@ var failingActions = []struct{ class, src string }{
 	{"range-kind", "range fnil }}x{{ end"},
 	{"assign-undeclared", "neverDeclared = 1"},
 	{"function-error", `failfn("boom")`},
+	{"function-error", `exec("/inc/execfail.jet")`},
+	{"function-error", `includeIfExists("/inc/execfail.jet")`},
 	{"writer-not-last", `raw: "x" | upper`},
 }
 
@@ -72,6 +74,17 @@ func failFuncs() map[string]jet.Func {
 			return reflect.Value{}
 		},
 	}
+}
+
+// failFiles adds the template that fails while it renders (after producing output): exec / includeIfExists of it
+// fail inside the built-in, with the writer swapped.
+func failFiles(p *mj.Program) {
+	for _, f := range p.Files {
+		if f.Path == "/inc/execfail.jet" {
+			return
+		}
+	}
+	p.Files = append(p.Files, &mj.File{Path: "/inc/execfail.jet", Body: []*mj.Node{mj.Text("partial output of execfail "), {K: "fail", Src: "noSuchVariable", Class: "unknown-identifier"}}})
 }
 
 func failVars(p *mj.Program) {
@@ -186,8 +199,16 @@ func (g *c13Gen) tryStmt(inBlockWithContent bool) []*mj.Node {
 	default:
 		n.HasCatch = true
 		n.Name = g.id("err")
+		if g.n(0, 3, "catchNameCollides") == 0 {
+			// the catch variable reuses the name of a variable that is in sight: it must only shadow it
+			n.Name = tv
+			g.labels["catch-variable-shadows-outer"] = true
+		}
 		cv := g.id("catchvar")
-		g.decls = append(g.decls, cv, n.Name)
+		g.decls = append(g.decls, cv)
+		if n.Name != tv {
+			g.decls = append(g.decls, n.Name)
+		}
 		n.Catch = []*mj.Node{mj.Text("(caught, err set:"), mj.Print(mj.Call("isset", mj.Var(n.Name))), mj.Text(")"), mj.Let(cv, mj.Str("c")), mj.Text("(.="), mj.Print(mj.Dot()), mj.Text(")")}
 		g.labels["catch-with-variable"] = true
 		if g.n(0, 5, "catchfails") == 0 {
@@ -239,6 +260,7 @@ func genC13(t *rapid.T) c13Case {
 		body = []*mj.Node{{K: "include", E: mj.Str(f.Path), Ctx: mj.Str("hostctx")}, mj.Text("(.="), mj.Print(mj.Dot()), mj.Text(")")}
 	}
 	main.Body = append(append([]*mj.Node{mj.Text("<main>")}, body...), mj.Text("</main>"))
+	failFiles(g.p)
 	c := c13Case{Prog: g.p}
 	src := mj.NewPrinter().Sources(g.p)
 	var paths []string
